@@ -386,13 +386,15 @@ def solver_units_and_tolerances(ctx) -> None:
                    "make_op(dim=) is evolve_pair's dim" if okdim else
                    f"make_op(dim={show(mk[0].args.get('dim'))[:40]}): pair tensors of 3-level atoms are reshaped with the wrong physical dimension")
         else:
-            ts = p.frames[0].env.get("time_step")
             where = f.loc()
-            ops = [g for g in prog.funcs.values() if g.parent == f and g.name == "op"]
-            ctx.require(len(ops) == 1, "evolve_single: nested op not found")
-            okop = _op_returns_scaled(ops[0], "time_step")
-            ctx.ob("UNITS-mps", "evolve_single generator", ops[0].loc(), okop,
-                   "op(x) = time_step · H_eff(x)" if okop else "the generator of evolve_single is not time_step·H_eff(x)")
+            kx = [e for e in p.events if e.kind == "call" and e.name == "emu_base.math.krylov_exp.krylov_exp"]
+            ctx.require(len(kx) == 1, "evolve_single: krylov_exp call not found")
+            g = strip_typed(kx[0].args.get("op"))
+            ctx.require(g[0] == "localfunc" and g[1] in prog.funcs, "evolve_single: generator passed to krylov_exp not found")
+            gen = prog.funcs[g[1]]
+            ts, okop = _scaled_generator(prog, gen, p)
+            ctx.ob("UNITS-mps", "evolve_single generator", gen.loc(), okop,
+                   "op(x) = time_step · H_eff(x)" if okop else "the generator of evolve_single is not <scalar>·H_eff(x)")
         li = linear_in(ts, [dtp]) if ts is not None else None
         ok = li is not None and abs(li[0] - conv) < 1e-15 and abs(li[1]) < 1e-15
         ctx.ob("UNITS-mps", f"{fname} time_step", where, ok,
@@ -407,10 +409,19 @@ def solver_units_and_tolerances(ctx) -> None:
                        f"krylov_exp(is_hermitian={show(e.args.get('is_hermitian'))[:40]}) ignores the caller's flag",
                        entry=f.qualname)
     mo = prog.func(mod + "make_op")
-    ops = [g for g in prog.funcs.values() if g.parent == mo and g.name == "op"]
-    ctx.require(len(ops) == 1, "make_op: nested op not found")
-    okop = _op_returns_scaled(ops[0], "time_step")
-    ctx.ob("UNITS-mps", "make_op generator", ops[0].loc(), okop,
+    itm = Interp(prog, None, inline=lambda c, r, d: False)
+    pm = [q for q in itm.run(mo) if q.status == "return"][0]
+    rv = strip_typed(pm.retval)
+    gen = None
+    if rv[0] == "tuple":
+        for x in rv[1]:
+            x0 = strip_typed(x)
+            if x0[0] == "localfunc" and x0[1] in prog.funcs:
+                gen = prog.funcs[x0[1]]
+    ctx.require(gen is not None, "make_op: returned generator function not found")
+    ts2, okop = _scaled_generator(prog, gen, pm)
+    okop = okop and ts2 == ("param", mo.qualname, "time_step")
+    ctx.ob("UNITS-mps", "make_op generator", gen.loc(), okop,
            "op(x) = time_step · H_eff(x)" if okop else "the generator built by make_op is not time_step·H_eff(x)")
     f = prog.func(mod + "minimize_energy_pair")
     it = Interp(prog, None, inline=lambda c, r, d: False)
@@ -437,6 +448,22 @@ def _tol_args(ctx, f, e: Event, names) -> None:
     ctx.ob("ROLE-mps", f"{f.name} max_krylov_dim", e.loc(), ok,
            "max_krylov_dim = config.max_krylov_dim" if ok else
            f"max_krylov_dim = {show(e.args.get('max_krylov_dim'))[:40]}", entry=f.qualname)
+
+
+def _scaled_generator(prog, gen, outer_path):
+    """(scalar term, ok): gen(x) returns <closure scalar> * <effective Hamiltonian applied to x>."""
+    rets = [n for n in ast.walk(gen.node) if isinstance(n, ast.Return)]
+    if len(rets) != 1 or not isinstance(rets[0].value, ast.BinOp) or not isinstance(rets[0].value.op, ast.Mult):
+        return None, False
+    v = rets[0].value
+    sides = [v.left, v.right]
+    names = [s_.id for s_ in sides if isinstance(s_, ast.Name)]
+    calls = [s_ for s_ in sides if isinstance(s_, ast.Call)]
+    if len(names) != 1 or len(calls) != 1:
+        return None, False
+    # the scalar is a variable of the enclosing function: its value on the outer path
+    val = outer_path.frames[0].env.get(names[0]) if outer_path.frames else None
+    return (strip_typed(val) if val is not None else None), val is not None
 
 
 def _op_returns_scaled(op, name: str) -> bool:
